@@ -16,7 +16,7 @@ let run_find ic =
           Hashtbl.replace tbl (List.rev (ints p)) es
         | _ -> failwith "bad dir") (split_on ';' dirs);
       let fs p = Hashtbl.find_opt tbl p in
-      (match find fs (List.rev (ints stop)) (List.rev (ints start)) with
+      (match find_spokfile fs (List.rev (ints stop)) (List.rev (ints start)) with
        | Found d -> print_endline ("F " ^ String.concat "." (List.map (fun n -> string_of_int (int_of_nat n)) (List.rev d)))
        | NotFound -> print_endline "N"
        | ReadError _ -> print_endline "E")
